@@ -168,6 +168,9 @@ def _swv_over_diff(prog, vals):
         return o.family if o is not None else None
 
     binary = {L + k for k, s in enumerate(prog["stmts"]) if len(set(s["args"])) >= 2 and fam(s["op"]) in ("elemwise2", "setitem")}
+    # contractions unify their operands as well - one operand under two index orders included
+    # (einsum('ij,ji->i', x, x) with x chunked (2,1),(1,2)): there the layout drifts without any slice
+    src |= {L + k for k, s in enumerate(prog["stmts"]) if fam(s["op"]) == "linalg"}
     def reaches(v, targets, seen):
         if v in targets:
             return True
